@@ -3,6 +3,7 @@
 // unbounded recursion becomes a clean, shrinkable failure.
 #pragma once
 #include "engine.hpp"
+#include <atomic>
 #include <unordered_set>
 
 namespace eng {
@@ -14,6 +15,9 @@ namespace eng {
 bool printable_acyclic(const Entity& root, std::size_t* visited = nullptr, std::string* why = nullptr, std::unordered_set<const void*>* known_good = nullptr);
 
 PrintResult guarded_print(const ipr::Lexicon& lex, PrintWhat what, const void* target, bool locations);
+
+// true: prints run on the calling thread (2 MiB depth guard) instead of a dedicated 64 MiB-stack worker (C20: many short-lived threads)
+std::atomic<bool>& inline_printing();
 
 void print_op(World& w, const Op& op);
 void print_sweep(World& w, std::size_t cap_per_pool);
